@@ -104,6 +104,25 @@ func genC02(seed uint64, r *rng.Rand) *Plan {
 		p.Rules = append(p.Rules, &hb.Rule{Class: hb.AppClasses[g.R.Intn(len(hb.AppClasses)-1)], Msg: "injected", Count: g.R.Range(1, 3), Server: -1, Level: "region"})
 		return p
 	}
+	// fourth configuration: slow regionservers - the callers that give up do so
+	// while their request is outstanding, and its answer (often an exception)
+	// arrives for a call that nobody waits for any more
+	if g.R.Chance(0.12) {
+		for sv := 0; sv < p.Layout.Servers; sv++ {
+			p.Faults = append(p.Faults, &Fault{On: "step", N: 1, Act: "slow", Server: sv, Dur: g.R.Range(5, 60)})
+		}
+		for t := range p.Tasks {
+			for i := range p.Tasks[t].Ops {
+				o := &p.Tasks[t].Ops[i]
+				if o.Kind != "batch" && len(o.Key) > 0 && g.R.Chance(0.35) {
+					o.SkipBatch = true
+					o.Ctx = CtxSpec{Kind: "timeout", MS: g.R.Range(1, 40)}
+					p.Rules = append(p.Rules, &hb.Rule{Class: hb.AppClasses[g.R.Intn(len(hb.AppClasses)-1)], Msg: "injected", Count: 1, Server: -1, Level: "call", Nonce: o.Nonce})
+				}
+			}
+		}
+		return p
+	}
 	// second configuration: connection loss
 	if g.R.Chance(0.25) {
 		p.Faults = append(p.Faults, &Fault{On: "exec", N: g.R.Range(2, 25), Act: "reset", Server: g.R.Intn(p.Layout.Servers)})
